@@ -947,6 +947,12 @@ func DeleteHistoricVersions(ctx context.Context, s *DB, before time.Time) error 
 		if err != nil {
 			return fmt.Errorf("delete node: %s: %w", l, err)
 		}
+		// mast skips storing a node whose name the node cache contains,
+		// and nodes are content-named: a later version can contain this
+		// node's content again and must store it again.
+		if c, ok := s.cfg.NodeCache.(interface{ Remove(key interface{}) }); ok {
+			c.Remove(fmt.Sprintf("%s/%s", s.persist.NodeURLPrefix(), l))
+		}
 	}
 	for _, l := range roots {
 		_, err := s.s3Client.DeleteObjectWithContext(ctx, &s3.DeleteObjectInput{
